@@ -1314,10 +1314,12 @@ def py_preprocess(items, env=None):
 
 
 def compile_obstacles(defs):
-    """reasons why rustc is NOT expected to accept the generated code although the IDL is fine
-    (each confirmed on the real tool chain; recorded as known finding C41-generated-code-does-not-compile).
-    Empty list = the case belongs to the subset whose generated code must compile."""
+    """(defects, invalid): `defects` = reasons why rustc is NOT expected to accept the generated code although the
+    IDL is fine (each confirmed on the real tool chain; recorded as known finding
+    C41-generated-code-does-not-compile); `invalid` = reasons why the IDL itself is not a valid input (the case
+    is then no evidence either way).  Both empty = the generated code must compile."""
     why = set()
+    invalid = set()
     decl = {}     # absolute path tuple -> kind ('struct','enum','union','alias-scalar','alias-coll')
 
     def resolve(mods, t):
@@ -1325,6 +1327,8 @@ def compile_obstacles(defs):
         if ab:
             if not mods:
                 why.add("absolute scoped name outside any module (`a:::X` is not Rust)")
+            if tuple(segs) not in decl:
+                invalid.add("reference to an undeclared name")
             return decl.get(tuple(segs))
         k = decl.get(tuple(mods + segs))
         if k is None:
@@ -1332,8 +1336,13 @@ def compile_obstacles(defs):
                 if tuple(mods[:cut] + segs) in decl:
                     why.add("name resolved through an enclosing IDL scope (Rust paths do not search outwards)")
                     return decl[tuple(mods[:cut] + segs)]
-            why.add("reference to an undeclared name")
+            invalid.add("reference to an undeclared name")
         return k
+
+    def constructed(mods, t):
+        if t[0] == "seq":
+            return constructed(mods, t[1])
+        return t[0] == "name" and resolve(mods, t) in ("struct", "enum", "union", None)
 
     def elem_ok(mods, t, what):
         if t[0] in ("seq",):
@@ -1344,7 +1353,7 @@ def compile_obstacles(defs):
 
     def check_type(mods, t, declr, optional):
         if t[0] == "unsup":
-            why.add("unsupported type")
+            invalid.add("unsupported type")
             return
         if t[0] == "seq":
             elem_ok(mods, t[1], "sequence")
@@ -1353,14 +1362,14 @@ def compile_obstacles(defs):
         k = resolve(mods, t) if t[0] == "name" else None
         if declr[0] == "a":
             elem_ok(mods, t, "array")
-        if optional and t[0] == "name" and k in ("struct", "enum", "union", None):
-            why.add("@optional member of a constructed type (derive compares Option<T> with !=)")
+        if optional and constructed(mods, t):
+            why.add("@optional member of (a sequence of) a constructed type (derive compares Option<T> with !=)")
 
     def walk(mods, d):
         k = d[0]
         if k == "module":
             if not d[2]:
-                why.add("empty module")
+                invalid.add("empty module")
             for x in d[2]:
                 walk(mods + [d[1]], x)
         elif k == "struct":
@@ -1382,15 +1391,13 @@ def compile_obstacles(defs):
                 resolve(mods, d[2])
             for labels, t, dc in d[3]:
                 check_type(mods, t, dc, False)
-                if dc[1] in ("data", "src"):
-                    why.add("union member named like a local variable of the derive macro (data / src)")
             decl[tuple(mods + [d[1]])] = "union"
         elif k == "typedef":
             check_type(mods, d[1], ("s", "_"), False)
             coll = d[1][0] == "seq" or (d[1][0] == "name" and resolve(mods, d[1]) == "alias-coll")
             for dc in d[2]:
                 if dc[0] == "a":
-                    why.add("typedef of an array")
+                    invalid.add("typedef of an array")
                 decl[tuple(mods + [dc[1]])] = "alias-coll" if coll else "alias-scalar"
         elif k == "const":
             if d[3] in ("TRUE", "FALSE"):
@@ -1398,7 +1405,7 @@ def compile_obstacles(defs):
             if d[1][0] == "name":
                 resolve(mods, d[1])
         elif k == "unsup":
-            why.add("unsupported definition")
+            invalid.add("unsupported definition")
 
     for d in defs:
         walk([], d)
@@ -1443,8 +1450,10 @@ def compile_obstacles(defs):
     for d in defs:
         dids(d)
     if idents & set(RUST_RESERVED):
-        why.add("identifier reserved in Rust")
-    return sorted(why)
+        invalid.add("identifier reserved in Rust")
+    if idents & {"data", "src"}:
+        why.add("a constant or union member named like a local variable of the derive macro (data / src)")
+    return sorted(why), sorted(invalid)
 
 
 COMPILE_PROBES = [
@@ -1476,24 +1485,6 @@ def write_crate(sources, main_body="fn main() {}\n"):
 CARGO_ENV = {"CARGO_TARGET_DIR": os.path.join(CACHE, "target"), "RUSTFLAGS": "--cfg dust_dds_verif"}
 
 
-def cargo_check_batch(sources, timeout=1500):
-    """sources: list of generated Rust texts.  Returns {index: [error lines]} for those that rustc rejects,
-    or a string when cargo itself could not run."""
-    write_crate(list(enumerate(sources)))
-    with Lock("cargo"):
-        rc, out = sh(["cargo", "check", "--offline", "--message-format=short"], cwd=CRATE, timeout=timeout, env=CARGO_ENV)
-    bad = {}
-    for l in out.splitlines():
-        m = re.match(r"src/c(\d+)\.rs:\d+:\d+: error(\[E\d+\])?: (.*)", l)
-        if m:
-            bad.setdefault(int(m.group(1)), []).append(((m.group(2) or "") + " " + m.group(3))[:160])
-    if rc != 0 and not bad:
-        return "cargo check failed without a located error: " + out[-600:]
-    if rc == 0 and bad:
-        return "inconsistent cargo output"
-    return bad
-
-
 SHOW_FN = """
 fn show(i: usize, path: &str, t: dust_dds::xtypes::dynamic_type::DynamicType<'static>) {
     let d = t.descriptor;
@@ -1516,23 +1507,7 @@ def struct_paths(items, mods=()):
     return out
 
 
-def describe_batch(parsed, timeout=1500):
-    """parsed: list of (index, generated text, parsed items) that rustc accepts.  Builds the crate with a main
-    that prints the dynamic type description of every generated struct and runs it.
-    Returns {index: [obs struct terms]} or a string on failure."""
-    calls = []
-    for i, _, items in parsed:
-        for p in struct_paths(items):
-            calls.append('    show(%d, "%s", <c%d::%s as dust_dds::xtypes::type_support::Type>::TYPE);\n'
-                         % (i, "::".join(p), i, "::".join(p)))
-    write_crate([(i, src) for i, src, _ in parsed], SHOW_FN + "fn main() {\n" + "".join(calls) + "}\n")
-    with Lock("cargo"):
-        rc, out = sh(["cargo", "build", "--offline", "--message-format=short"], cwd=CRATE, timeout=timeout, env=CARGO_ENV)
-    if rc != 0:
-        return "cargo build of the description printer failed: " + out[-800:]
-    rc, out = sh([os.path.join(CACHE, "target", "debug", "c41gen")], timeout=120)
-    if rc != 0:
-        return "description printer crashed: " + out[-400:]
+def parse_obs(out):
     obs = {}
     for l in out.splitlines():
         p = l.split(" ")
@@ -1548,8 +1523,41 @@ def describe_batch(parsed, timeout=1500):
     return obs
 
 
+def build_and_describe(cands, timeout=2400):
+    """cands: list of (index, generated text, parsed items or None).  Builds a scratch crate (one module per
+    case, main prints the dynamic type description of every generated struct) against dust_dds; modules with
+    located rustc errors are recorded and removed, then the build is repeated until it succeeds; the binary
+    is run.  Returns (failed {index: [errors]}, obs {index: [obs_struct terms]}) or a string."""
+    failed = {}
+    cur = list(cands)
+    for _ in range(6):
+        calls = []
+        for i, _, items in cur:
+            for p in (struct_paths(items) if items is not None else []):
+                calls.append('    show(%d, "%s", <c%d::%s as dust_dds::xtypes::type_support::Type>::TYPE);\n'
+                             % (i, "::".join(p), i, "::".join(p)))
+        write_crate([(i, src) for i, src, _ in cur], SHOW_FN + "fn main() {\n" + "".join(calls) + "}\n")
+        with Lock("cargo"):
+            rc, out = sh(["cargo", "build", "--offline", "--message-format=short"], cwd=CRATE, timeout=timeout, env=CARGO_ENV)
+        if rc == 0:
+            rc, out = sh([os.path.join(CACHE, "target", "debug", "c41gen")], timeout=300)
+            if rc != 0:
+                return "description printer crashed: " + out[-400:]
+            return failed, parse_obs(out)
+        bad = {}
+        for l in out.splitlines():
+            m = re.match(r"src/c(\d+)\.rs:\d+:\d+: error(\[E\d+\])?: (.*)", l)
+            if m:
+                bad.setdefault(int(m.group(1)), []).append(((m.group(2) or "") + " " + m.group(3))[:160])
+        if not bad:
+            return "cargo build failed without an error located in a generated module: " + out[-800:]
+        failed.update(bad)
+        cur = [c for c in cur if c[0] not in bad]
+    return "the scratch crate still does not build after removing the rejected modules"
+
+
 def extra(ctx, binary):
-    from vlib.core import run_harness, known_ids
+    from vlib.core import run_harness, known_ids, coq_eval_cases
     import random
     r = random.Random("C41-compile-%d" % ctx.seed)
     want = {"quick": 40, "thorough": 300}.get(ctx.tier, 40)
@@ -1563,66 +1571,62 @@ def extra(ctx, binary):
         tries += 1
         items = one_spec(r, {"nested_seq": 0.0, "odd_switch": 0.0, "bit_bound": 0.0, "bool_const": 0.0, "unsup_t": 0.0,
                              "unsup_d": 0.0, "typedef_array": 0.0, "abs_top": 0.0, "outer_ref": 0.0, "empty_module": 0.0})
-        if compile_obstacles(py_preprocess(items)):
+        if any(compile_obstacles(py_preprocess(items))):
             continue
         if not has_members(items):
             continue
         batch.append(("gen", ("spec", items, idl_text(("spec", items), r))))
     lines = [case_line(c) for _, c in batch]
     outs = run_harness(binary, HARNESS, lines)
-    idx = [i for i, o in enumerate(outs) if o.startswith("OK ")]
-    res = cargo_check_batch([outs[i][3:] for i in idx])
-    cov = {"generated_cases": sum(1 for k, _ in batch if k == "gen"), "corpus_and_probes": len(batch) - sum(1 for k, _ in batch if k == "gen"),
-           "checked_by_rustc": len(idx)}
+    cands = []
+    for i, o in enumerate(outs):
+        if not o.startswith("OK "):
+            continue
+        if compile_obstacles(py_preprocess(batch[i][1][1]))[1]:
+            continue                      # not a valid input: no evidence either way
+        try:
+            items = read_rust(o[3:])
+        except (Bad, IndexError):
+            items = None
+        cands.append((i, o[3:], items))
+    ngen = sum(1 for k, _ in batch if k == "gen")
+    cov = {"generated_cases": ngen, "corpus_and_probes": len(batch) - ngen, "checked_by_rustc": len(cands)}
+    res = build_and_describe(cands)
     if isinstance(res, str):
         ctx.broken.append("compile observation could not run: " + res)
         ctx.cov["compile_observation"] = cov
         return
-    ok_expected = failed_expected = 0
-    for j, i in enumerate(idx):
-        kind, c = batch[i]
-        why = compile_obstacles(py_preprocess(c[1]))
-        if j in res:
-            if why and COMPILE_FINDING in known_ids(PID):
-                failed_expected += 1
-                ctx.known_seen.setdefault(COMPILE_FINDING, lines[i])
-            else:
-                ctx.violations.append(("compile", "generated Rust does not compile against dust_dds (%s) for IDL: %s"
-                                       % ("; ".join(res[j][:2]), lines[i]),
-                                       {"case": lines[i], "harness": HARNESS, "impl_output": outs[i], "rustc": res[j][:5],
-                                        "expected_obstacles": why}))
+    failed, obs = res
+    known = known_ids(PID)
+    rejected_known = 0
+    for i, src, _ in cands:
+        if i not in failed:
+            continue
+        why = compile_obstacles(py_preprocess(batch[i][1][1]))[0]
+        if why and COMPILE_FINDING in known:
+            rejected_known += 1
+            ctx.known_seen.setdefault(COMPILE_FINDING, lines[i])
         else:
-            ok_expected += 1
-    cov["compiled"] = ok_expected
-    cov["rejected_in_known_constructs"] = failed_expected
+            ctx.violations.append(("compile", "generated Rust does not compile against dust_dds (%s) for IDL: %s"
+                                   % ("; ".join(failed[i][:2]), lines[i]),
+                                   {"case": lines[i], "harness": HARNESS, "impl_output": outs[i], "rustc": failed[i][:5],
+                                    "expected_obstacles": why}))
+    cov["compiled"] = len(cands) - len(failed)
+    cov["rejected_in_known_constructs"] = rejected_known
     ctx.cov["compile_observation"] = cov
-    ctx.assumptions.append("compile observation: %d generated + %d corpus/probe specifications checked by rustc against dust_dds; "
+    ctx.assumptions.append("compile observation: %d generated + %d corpus/probe specifications, %d built by rustc against dust_dds; "
                            "%d compiled, %d rejected inside the recorded constructs" %
-                           (cov["generated_cases"], cov["corpus_and_probes"], ok_expected, failed_expected))
+                           (ngen, cov["corpus_and_probes"], len(cands), cov["compiled"], rejected_known))
     # second tie: the compiled generated code prints its dynamic type descriptions
-    from vlib.core import coq_eval_cases
-    parsed = []
-    for j, i in enumerate(idx):
-        if j in res:
-            continue
-        try:
-            items = read_rust(outs[i][3:])
-        except (Bad, IndexError):
-            continue
-        if struct_paths(items):
-            parsed.append((i, outs[i][3:], items))
-    obs = describe_batch(parsed)
-    if isinstance(obs, str):
-        ctx.broken.append("description observation could not run: " + obs)
-        return
     terms, where = [], []
-    for i, _, items in parsed:
+    for i, _, items in cands:
+        if i in failed or items is None or not struct_paths(items):
+            continue
         terms.append("mkC41d %s %s %s" % (cl([q_pp(x) for x in batch[i][1][1]]), cl([q_item(x) for x in items]), cl(obs.get(i, []))))
         where.append(i)
     mb, ob, err = coq_eval_cases(ctx, CORR, "C41d", "C41d_case", terms, tag="desc")
     if err:
         ctx.broken.append("description correspondence evaluation failed: " + err[-600:])
-    known = known_ids(PID)
     for j in mb[:3]:
         ctx.broken.append("correspondence C41d: the descriptions printed by the compiled code differ from the modelled reading "
                           "of the derive macro, e.g. %s -> %s" % (lines[where[j]], " ".join(obs.get(where[j], []))[:400]))
